@@ -39,6 +39,13 @@ theorem WInv.items_nil {c : WfqCfg ℚ} {s : WState} (h : WInv c s) (ha : s.sch.
   rw [he] at this
   simp at this
 
+/-- `total_packets == 0`: nothing waits -/
+theorem WInv.items_nil_of_total {c : WfqCfg ℚ} {s : WState} (h : WInv c s) (h0 : qcTotal s.queueCount = 0) :
+    s.items = [] := by
+  have he := h.tot.zero_iff.mp h0
+  simp only [held, List.append_eq_nil_iff, waiting, List.map_eq_nil_iff] at he
+  exact he.2
+
 /-- the bookkeeping burst leaves the finish times alone unless the scheduler empties -/
 theorem done_finish (c : WfqCfg ℚ) (st st' : WfqSt ℚ) (now : ℚ) (p : SPkt) (h : done c st now p = .ok st')
     (hne : st'.active ≠ []) : st'.finish = st.finish := by
@@ -104,7 +111,7 @@ theorem step_word {c : WfqCfg ℚ} (hp : Pos c) {s s' : WState} {a : StAct ℚ} 
       have := sub_ord (pre ++ post) sch (by rw [hl]; simp) hf
       exact ⟨this.1, this.2⟩
   | put p sch stamp h1 =>
-    obtain ⟨k, st1, f, w, hk, ha, hf, hwt, hz, rfl, rfl⟩ := put_spec c _ _ _ _ _ h1
+    obtain ⟨k, st1, f, w, hk, ha, hf, hwt, hz, rfl, rfl⟩ := put_spec c _ _ _ _ _ _ h1
     have hpsz : 0 < p.size := hsz p (by simp [entered])
     have hwpos := hp.w k w hwt
     have hgt := stampOf_gt c hp f st1.vtime w hwpos p.size hpsz
@@ -112,8 +119,8 @@ theorem step_word {c : WfqCfg ℚ} (hp : Pos c) {s s' : WState} {a : StAct ℚ} 
     have hold : ∀ it ∈ s.items, ∀ k', clsOf c it.pkt.flow = some k' →
         ∃ F, lookup st1.finish k' = some F ∧ it.stamp ≤ F := by
       intro it hit k' hk'
-      rcases advance_spec c _ _ _ ha with ⟨hnil, _⟩ | ⟨_, _, _, rfl⟩
-      · have := hw.items_nil hnil
+      rcases advance_spec c _ _ _ _ ha with ⟨h0, _⟩ | ⟨_, _, _, rfl⟩
+      · have := hw.items_nil_of_total h0
         rw [this] at hit; simp at hit
       · exact ho.cap it hit k' hk'
     refine ⟨?_, ?_⟩
@@ -180,18 +187,17 @@ theorem step_no_raise {c : WfqCfg ℚ} (hp : Pos c) {s : WState} (hw : WInv c s)
   apply step_no_raise_of (d := sched c) hp.rate s a
   · intro p hpa
     obtain ⟨k, w, hk, hwt⟩ := hconf p hpa
-    have hadv : ∃ st1, advance c s.sch s.now = .ok st1 ∧ ∃ f, lookup st1.finish k = some f := by
+    have hadv : ∃ st1, advance c s.sch s.now (qcTotal s.queueCount) = .ok st1 ∧ ∃ f, lookup st1.finish k = some f := by
       unfold advance
-      by_cases hnil : s.sch.active = []
-      · have : s.sch.active.isEmpty = true := by simp [hnil]
-        rw [if_pos this]
+      by_cases h0 : qcTotal s.queueCount = 0
+      · rw [if_pos h0]
         exact ⟨_, rfl, 0, by simp [resetVtime, lookup_zeroFinish, hwt]⟩
-      · have : ¬ s.sch.active.isEmpty = true := by simpa using hnil
-        rw [if_neg this, updateVtime_ok c _ _ (fun k hk => hw.active_weighted k hk) (hw.wsum_ne hp hnil)]
+      · have hnil := hw.active_ne_of_total h0
+        rw [if_neg h0, updateVtime_ok c _ _ (fun k hk => hw.active_weighted k hk) (hw.wsum_ne hp hnil)]
         exact ⟨_, rfl, hw.fkeys hnil k w hwt⟩
     obtain ⟨st1, ha, f, hf⟩ := hadv
     have hz : c.rate * w ≠ 0 := ne_of_gt (mul_pos hp.rate (hp.w k w hwt))
-    exact ⟨_, put_ok c s.sch st1 s.now p k f w hk ha hf hwt hz⟩
+    exact ⟨_, put_ok c s.sch st1 s.now _ p k f w hk ha hf hwt hz⟩
   · intro p hfin
     have hpm : p ∈ held' s := by simp [held', finL, hfin]
     obtain ⟨k, w, hk, hwt⟩ := hw.conf p hpm
